@@ -197,3 +197,59 @@ de_harness! {
         std::mem::forget(de);
     }
 }
+
+// ---------------------------------------------------------------- reserved
+// `candid::Reserved` at expected type `reserved`: any wire value is accepted and skipped
+// (spec: every type is a subtype of reserved); malformed bytes are still an error; skipped
+// data is charged to the skipping quota and is never free.
+macro_rules! reserved_h {
+    ($mac:ident, $name:ident, $psel:expr, $n:expr) => {
+        $mac! {
+            #[kani::unwind(12)]
+            fn $name() {
+                const N: usize = $n;
+                let buf: [u8; N] = kani::any();
+                let cfg = cfg_any();
+                let unmetered = cfg.decoding_quota.is_none() && cfg.skipping_quota.is_none();
+                let sq0 = cfg.skipping_quota;
+                let mut de = mk_de(&buf[..], ty(prim_inner($psel)), ty(TypeInner::Reserved), cfg);
+                let r = <crate::Reserved>::deserialize(&mut de);
+                let pos = de.input.position() as usize;
+                std::assert!(pos <= N, "cursor beyond the input");
+                let exp = ref_prim_size($psel, &buf, N);
+                match (&r, exp) {
+                    (Ok(_), Some(sz)) => {
+                        std::assert!(pos == sz, "skipped value: wrong number of bytes consumed");
+                        if let (Some(a), Some(b)) = (sq0, de.config.skipping_quota) {
+                            std::assert!(a > b, "skipped value not charged to the skipping quota");
+                        }
+                    }
+                    (Ok(_), None) => std::assert!(false, "malformed value accepted at reserved"),
+                    (Err(_), Some(_)) => std::assert!(!unmetered, "well-formed value rejected at reserved without a quota"),
+                    (Err(_), None) => {}
+                }
+                kani::cover!(r.is_ok() == exp.is_some() && unmetered, "outcome as the spec requires");
+                kani::cover!(!unmetered, "metered run reached");
+                std::mem::forget(r);
+                std::mem::forget(de);
+            }
+        }
+    };
+}
+reserved_h!(de_harness, c08_reserved_w_null, 0, 2);
+reserved_h!(de_harness, c08_reserved_w_bool, 1, 2);
+reserved_h!(de_harness_bn, c08_reserved_w_nat, 2, 4);
+reserved_h!(de_harness_bn, c08_reserved_w_int, 3, 4);
+reserved_h!(de_harness, c08_reserved_w_nat8, 4, 2);
+reserved_h!(de_harness, c08_reserved_w_nat16, 5, 3);
+reserved_h!(de_harness, c08_reserved_w_nat32, 6, 5);
+reserved_h!(de_harness, c08_reserved_w_nat64, 7, 9);
+reserved_h!(de_harness, c08_reserved_w_int8, 8, 2);
+reserved_h!(de_harness, c08_reserved_w_int16, 9, 3);
+reserved_h!(de_harness, c08_reserved_w_int32, 10, 5);
+reserved_h!(de_harness, c08_reserved_w_int64, 11, 9);
+reserved_h!(de_harness, c08_reserved_w_f32, 12, 5);
+reserved_h!(de_harness, c08_reserved_w_f64, 13, 9);
+reserved_h!(de_harness, c08_reserved_w_text, 14, 4);
+reserved_h!(de_harness, c08_reserved_w_reserved, 15, 2);
+reserved_h!(de_harness, c08_reserved_w_empty, 16, 2);
